@@ -75,6 +75,12 @@ Theorem C20_type_urls_canonical : forallb url_ok gen_type_urls = true.
 Proof. vm_compute. reflexivity. Qed.
 Print Assumptions C20_type_urls_canonical.
 
+(* every enumeration's default as the bindings see it (prost: the first declared variant) is protobuf's default, the
+   value 0 -- otherwise a field holding the first variant is omitted on the wire and an absent field reads as it *)
+Theorem C20_enum_defaults_are_zero : forallb (fun e => snd e =? 0) gen_enum_first = true.
+Proof. vm_compute. reflexivity. Qed.
+Print Assumptions C20_enum_defaults_are_zero.
+
 Theorem C20_module_tree_mirrors_packages : forallb (fun e => String.eqb (fst e) (snd e)) gen_modtree = true.
 Proof. vm_compute. reflexivity. Qed.
 Print Assumptions C20_module_tree_mirrors_packages.
